@@ -108,7 +108,9 @@ SAN_ENV = {"ASAN_OPTIONS": "detect_leaks=1:abort_on_error=1:allocator_may_return
 
 def run_cases(ctx, exe, cases, n, procs=4, timeout=1500, tag="c"):
     """Replays `cases` (dicts with "id") n concretisations each; returns {id: result line}.
-    A harness crash comes back as a result with v == "crash" (the input that was running)."""
+    The harness runs the cases in forked children: a crash of the code under test comes back as a result
+    with v == "crash" (and the concrete input that was running) and the remaining cases still run; after a
+    cap of crashes per process the rest is skipped (counted in ctx.extra)."""
     from . import hrun
     parts = [cases[i::procs] for i in range(procs)]
     parts = [p for p in parts if p]
@@ -120,35 +122,31 @@ def run_cases(ctx, exe, cases, n, procs=4, timeout=1500, tag="c"):
                 f.write(json.dumps(c) + "\n")
         files.append(path)
     results = {}
+    skipped = 0
     with cf.ThreadPoolExecutor(max_workers=len(files) or 1) as ex:
         futs = [(p, ex.submit(hrun.run_harness, exe, ["replay", path, ctx.seed, n], None, timeout, SAN_ENV))
                 for p, path in zip(parts, files)]
         for p, f in futs:
             h = f.result()
-            if h.rc == 9 or h.timed_out:
-                raise Broken("harness failed (rc=%s): %s" % (h.rc, h.err[-1500:]))
-            done = False
+            if h.timed_out:
+                raise Broken("harness timed out: %s" % h.err[-1500:])
+            done, first = False, True
             for o in h.json():
                 if "done" in o:
                     done = True
+                elif "skipped" in o:
+                    skipped += o["skipped"]
                 elif "id" in o:
-                    if o.get("v") == "crash":
-                        o["stderr"] = h.err[-3000:]
+                    if o.get("v") == "crash" and first:
+                        o["stderr"] = h.err[:6000]      # the first sanitizer report of this process
+                        first = False
                     results[o["id"]] = o
-            if not done:
-                if not h.crashed and h.rc == 0:
-                    raise Broken("harness stopped early: %s" % h.err[-1500:])
-                # crashed: the death callback printed the running case; if it could not, blame the
-                # first case without a result
-                if not any(o.get("v") == "crash" for o in results.values() if o["id"] in {c["id"] for c in p}):
-                    miss = [c for c in p if c["id"] not in results]
-                    if miss:
-                        results[miss[0]["id"]] = {"id": miss[0]["id"], "v": "crash", "stderr": h.err[-3000:],
-                                                  "rc": h.rc}
-            elif h.rc != 0:
-                # finished all cases but the process still failed: leak report or the like
-                raise_or = h.err[-3000:]
-                results[-1] = {"id": -1, "v": "crash", "stderr": raise_or, "rc": h.rc}
+            # the harness parent never runs the code under test (forked children do), so anything but a
+            # clean finish is a harness problem
+            if h.rc != 0 or not done:
+                raise Broken("harness failed (rc=%s): %s" % (h.rc, h.err[-1500:]))
+    if skipped:
+        ctx.extra["cases_skipped_after_crash_cap"] = ctx.extra.get("cases_skipped_after_crash_cap", 0) + skipped
     for path in files:
         try:
             os.unlink(path)
@@ -170,25 +168,28 @@ def record_validate(ctx, exe, *, harness, module, cfg_template, alldevs, n, need
             f.write(cfg_template % {"dev": ", ".join('"%s"' % d for d in sorted(devs))})
         return p
     h = hrun.run_harness(exe, ["record", ctx.seed, n], timeout=1500, env=SAN_ENV)
-    lines, crash = [], None
+    lines, crashes, skipped = [], [], 0
     for ln in h.lines:
         try:
             o = json.loads(ln)
         except ValueError:
             continue                      # a line cut short by a crash
         if o.get("v") == "crash":
-            crash = o
+            crashes.append(o)
+        elif "skipped" in o:
+            skipped += o["skipped"]
         elif "e" in o:
             lines.append(ln)
-    if h.rc == 9 or h.timed_out:
-        raise Broken("recorder failed: " + h.err[-1500:])
-    if h.crashed or h.rc != 0 or crash:
-        crash = crash or {}
+    if h.rc != 0 or h.timed_out:          # the recorder's parent process never runs the code under test
+        raise Broken("recorder failed (rc=%s): %s" % (h.rc, h.err[-1500:]))
+    if len(lines) + len(crashes) + skipped != n:
+        raise Broken("recorder: %d events + %d crashes + %d skipped != %d" % (len(lines), len(crashes), skipped, n))
+    for k, c in enumerate(crashes[:max_reports]):
         ctx.violation("the real propagator crashed / sanitizer report while recording, input %s\n%s" % (
-            json.dumps(crash.get("concrete")), h.err[-1500:]),
-            {"harness": harness, "mode": "record", "seed": ctx.seed, "n": n, "concrete": crash.get("concrete")})
-    elif len(lines) != n:
-        raise Broken("recorder printed %d of %d events" % (len(lines), n))
+            json.dumps(c.get("concrete")), h.err[:3000] if k == 0 else ""),
+            {"harness": harness, "mode": "record", "seed": ctx.seed, "n": n, "event_index": c.get("id"),
+             "concrete": c.get("concrete")})
+    crash = crashes[0] if crashes else None
     known = sorted(set(alldevs) & ctx.known_devs())
     res = validate_events(ctx, module, cfg("trace.cfg", known), lines, chunk=3000, parallel=4, tag="tv")
     kinds = res["kinds"]
@@ -215,7 +216,8 @@ def record_validate(ctx, exe, *, harness, module, cfg_template, alldevs, n, need
     ctx.evaluations += len(lines)
     for i in range(len(lines)):
         ctx.distinct.add(("ev", i))
-    ctx.extra["trace_validation"] = {"events": len(lines), "unexplained": len(bad), "kinds": kinds,
+    ctx.extra["trace_validation"] = {"events": len(lines), "crashes": len(crashes), "skipped_after_crash_cap": skipped,
+                                     "unexplained": len(bad), "kinds": kinds,
                                      "deviations_used": sorted(res["devs"])}
     if lines:
         ctx.sample({"kind": "recorded real execution validated by %s" % module, "event": json.loads(lines[0])})
